@@ -91,6 +91,44 @@ out:
 	res_printf("O %x %x\nC api_calls %ld\n", from, absent, calls);
 	res_finish();
 }
+/* ---- c11.wait: the two calls that WAIT for the bus (start-up, system reset) while the receiver handles spontaneous traffic
+ * bidib_start_pointer and bidib_send_sys_reset poll the internal queue for node-table rows, feature confirmations, ... which only
+ * the receiver thread can deliver.  A lock kept across such a wait blocks the call forever as soon as the receiver needs that lock
+ * for a message that happens to arrive in between.  Cases: every uplink type 0x80..0xFF from master / oc1, injected directly before
+ * the answer to the k-th downlink message of the dialogue, for every k.  The call must return (the scheduler reports a wait-for
+ * cycle, or the virtual-time horizon with the blocked threads), nothing may be held afterwards, bidib_stop must return. */
+static int inj_at, inj_seen, inj_done, inj_type, inj_from;
+static int inj_hook(int node, const rc_msg_t *m) { (void) node; (void) m;
+	if (inj_done || inj_seen++ != inj_at) return 0;
+	inj_done = 1; uint8_t d[16]; int dl; uplink_payload((uint8_t) inj_type, d, &dl); sb_send(inj_from, (uint8_t) inj_type, d, dl); return 0; }
+static void wait_child(const void *job, size_t n) {
+	vs_dev_t devs[VS_MAXDEV]; int nd; size_t pl; const uint8_t *p = job_parse(job, n, devs, &nd, &pl);
+	int c = p[0], phase = p[1], k = p[2], probe = p[3];
+	hx_child_begin(NULL, 0, 0, NULL, 0, 150ull * 1000000ull);
+	inj_type = 0x80 + c % 128; inj_from = c / 128; inj_at = k; inj_seen = 0; inj_done = phase || probe;   /* phase 1: armed after the start */
+	char name[96]; snprintf(name, sizeof name, "%s with type-%02x-from-%s before answer #%d", phase ? "bidib_send_sys_reset" : "bidib_start_pointer", inj_type, inj_from ? "oc1" : "master", k);
+	hx_set_context(name);
+	cm_std(&M); cm_install(&M); SB.on_msg = inj_hook;
+	vs_set_label(name);
+	int rc = hx_start_normal(0); hx_quiesce();
+	int len_start = SB.nlog, fired = inj_done && !phase && !probe;
+	if (rc && (phase || probe || !fired)) res_infra("normal start failed");     /* a message that makes the start fail cleanly is C20's subject, not a blocked call */
+	if (!rc && (phase || probe)) { inj_seen = 0; inj_done = probe; bidib_send_sys_reset(0); hx_quiesce(); fired = inj_done && !probe; }
+	if (probe) res_printf("L %d %d\n", len_start, SB.nlog - len_start);
+	check_balance(name, 0);
+	if (!rc) { bidib_stop(); check_balance("bidib_stop", 0); }
+	res_printf("O %x %x\nC wait_cases 1\nC wait_injected %d\n", c, k + 256 * phase, fired);
+	res_finish();
+}
+static int wait_len[2]; static long wait_n[2];
+static size_t wait_gen(long idx, uint8_t *payload, char *human, size_t hn) {
+	if (idx == 0 && !wait_len[0]) { payload[0] = 0; payload[1] = 0; payload[2] = 0; payload[3] = 1; snprintf(human, hn, "probe: length of the start-up and reset dialogues"); return 4; }
+	int phase = idx >= wait_n[0]; if (phase) idx -= wait_n[0];
+	int k = (int) (idx / 256), c = (int) (idx % 256);
+	payload[0] = (uint8_t) c; payload[1] = (uint8_t) phase; payload[2] = (uint8_t) k; payload[3] = 0;
+	snprintf(human, hn, "%s, uplink type %02x from %s before the answer to downlink message #%d", phase ? "system reset" : "start-up", 0x80 + c % 128, c / 128 ? "oc1" : "master", k); return 4;
+}
+static void wait_probe_res(long idx, const run_res_t *r) { (void) idx; const char *l = res_line(r, 'L', 0); if (l) sscanf(l, "%d %d", &wait_len[0], &wait_len[1]); }
 /* ---- parent: union graph */
 #define MAXLK 24
 static char lkname[MAXLK][48]; static int nlk; static int G[MAXLK][MAXLK]; static char Glabel[MAXLK][MAXLK][72];
@@ -141,13 +179,25 @@ static void pair_child(const void *job, size_t n) {
 }
 static int entry_by_name(const char *name) { for (int e = 0; e < N_ENTRIES; e++) if (!strcmp(entry_name(e), name)) return e; return -1; }
 
-void c11_register(void) { harness_register("c11.cat", cat_child); harness_register("c11.pair", pair_child); }
+void c11_register(void) { harness_register("c11.cat", cat_child); harness_register("c11.pair", pair_child); harness_register("c11.wait", wait_child); }
 int c11_run(const char *tier) {
 	int thorough = !strcmp(tier, "thorough");
 	nlk = 0; memset(G, 0, sizeof G);
 	long nchunks = (N_ENTRIES + 5) / 6;
 	ex_spec_t e = { .harness = "c11.cat", .ncases = nchunks * 7, .gen = cat_gen, .on_result = cat_res, .label = "c11.cat" };
 	ex_map(&e);
+	/* the waiting calls against spontaneous traffic: probe the dialogue lengths, then every (type, sender, position) */
+	wait_len[0] = wait_len[1] = 0;
+	ex_spec_t wp = { .harness = "c11.wait", .ncases = 1, .gen = wait_gen, .on_result = wait_probe_res, .label = "c11.wait probe" };
+	ex_map(&wp);
+	long wait_done = 0; int wait_ex = wp.exhaustive;
+	if (wait_len[0] > 0) {
+		wait_n[0] = 256L * wait_len[0]; wait_n[1] = 256L * wait_len[1];
+		ex_spec_t w = { .harness = "c11.wait", .ncases = wait_n[0] + wait_n[1], .gen = wait_gen, .label = "c11.wait" };
+		ex_map(&w); wait_done = w.done; if (!w.exhaustive) wait_ex = 0;
+	} else { rep_infra("c11.wait: the probe did not report the dialogue lengths"); wait_ex = 0; }
+	rep_note("c11.wait: start-up dialogue %d downlink messages, reset dialogue %d; %ld cases (128 uplink types x 2 senders x every position x {start-up, reset}), message injected in %ld", wait_len[0], wait_len[1], wait_done, rep_get("wait_injected"));
+	e.done += wait_done + 1; if (!wait_ex) e.exhaustive = 0;
 	int nedges = 0; for (int a = 0; a < nlk; a++) for (int b = 0; b < nlk; b++) if (G[a][b]) { nedges++; rep_note("lock order edge %s -> %s (modes %d) first seen in %s", lkname[a], lkname[b], G[a][b], Glabel[a][b]); }
 	nfound = 0; for (int s0 = 0; s0 < nlk; s0++) { cyc[0] = s0; dfs(s0, s0, 0); }
 	long pair_execs = 0, confirmed_runs = 0;
